@@ -1,9 +1,21 @@
-// C16: angle arithmetic and exact-summation primitives.
+// C16: angle arithmetic and exact-summation primitives — every instantiation that exists in the built library
+// (float, double, long double for the Math:: templates; float and double for Accumulator).
+//
+//  * double ops `angnorm sum angdiff anground latfix sincosd sincosde atan2d accum`: judged in Lean (exact dyadic arithmetic /
+//    the binary64 model of the code).
+//  * generic ops `one gsum gangdiff gacc` (first argument = precision tag f|d|l): the exact relations of the property are
+//    decided in Lean at the precision of the instantiation (24 / 53 / 64 bits); everything that needs libm is judged here
+//    against the next wider type (double / x87 long double / __float128).
+//  * `f32scan lo hi`: the one-argument battery over every float bit pattern in [lo, hi) (thorough tier: all 2^32).
 #include "common.hpp"
+#include "C16_ref.hpp"
 #include <GeographicLib/Math.hpp>
 #include <GeographicLib/Accumulator.hpp>
-using namespace GeographicLib; using namespace gv;
+using namespace GeographicLib; using namespace gv; using namespace c16;
 
+// ------------------------------------------------------------------------------------------------------------------
+// double-precision ops judged by the Lean model (unchanged protocol)
+// ------------------------------------------------------------------------------------------------------------------
 static Reg r_angnorm("angnorm", [](const Args& a) {
   double x = unhx(a[0]); emit(hx(Math::AngNormalize(x)));
 });
@@ -16,58 +28,41 @@ static Reg r_angdiff("angdiff", [](const Args& a) {
 static Reg r_anground("anground", [](const Args& a) { emit(hx(Math::AngRound(unhx(a[0])))); });
 static Reg r_latfix("latfix", [](const Args& a) { emit(hx(Math::LatFix(unhx(a[0])))); });
 
-// long double references (x87 80-bit: 64-bit mantissa)
-static long double sinl_deg(double x) {
-  // exact reduction then long double kernel
-  int q; double d = std::remquo(x, 90.0, &q);
-  long double r = (long double)d * (3.14159265358979323846264338327950288L / 180);
-  long double s = sinl(r), c = cosl(r);
-  switch (unsigned(q) & 3U) { case 0: return s; case 1: return c; case 2: return -s; default: return -c; }
-}
-static long double cosl_deg(double x) {
-  int q; double d = std::remquo(x, 90.0, &q);
-  long double r = (long double)d * (3.14159265358979323846264338327950288L / 180);
-  long double s = sinl(r), c = cosl(r);
-  switch (unsigned(q) & 3U) { case 0: return c; case 1: return -s; case 2: return -c; default: return s; }
-}
-static double ulps(double got, long double ref) {
-  if (ref == 0) return got == 0 ? 0 : INFINITY;
-  double u = ulp((double)ref);
-  double lo = std::ldexp(1.0, -1022);
-  if (std::fabs((double)ref) < lo) u = std::ldexp(1.0, -1074);
-  return (double)(fabsl((long double)got - ref) / u);
-}
-
 static Reg r_sincosd("sincosd", [](const Args& a) {
   // wrapper correspondence: kernel values are the implementation's own results on the reduced argument
+  // (the property-level oracles on sincosd/sind/cosd/tand are in the battery `one`)
   double x = unhx(a[0]);
   int q; double d = std::remquo(x, 90.0, &q);
   double s, c, sx, cx; Math::sincosd(d, s, c); Math::sincosd(x, sx, cx);
-  if (a.size() < 4) current_op() = "sincosd " + a[0] + " " + hx(d) + " " + hx(s) + " " + hx(c);
+  current_op() = "sincosd " + a[0] + " " + hx(d) + " " + hx(s) + " " + hx(c);
   emit(hx(sx) + " " + hx(cx));
-  if (std::isfinite(x)) {
-    // property-level: accuracy (2 ulp), consistency of sind/cosd, odd/even, exact special values
-    double e1 = ulps(sx, sinl_deg(x)), e2 = ulps(cx, cosl_deg(x));
-    if (sinl_deg(x) != 0 && !(e1 <= 2.0)) bad("sincosd-accuracy", "sin err ulps=" + std::to_string(e1));
-    if (cosl_deg(x) != 0 && !(e2 <= 2.0)) bad("sincosd-accuracy", "cos err ulps=" + std::to_string(e2));
-    if (bits(Math::sind(x)) != bits(sx) || bits(Math::cosd(x)) != bits(cx)) bad("sind-cosd-vs-sincosd", "sind/cosd differ from sincosd");
-    double s2, c2; Math::sincosd(-x, s2, c2);
-    if (bits(s2) != bits(-sx) || bits(c2) != bits(cx)) bad("sincosd-parity", "sin not odd or cos not even");
-    double m30 = std::remainder(x, 30.0), m45 = std::remainder(x, 45.0);
-    if (m30 == 0 || m45 == 0) {
-      // correctly rounded at multiples of 30 and 45
-      if (bits((double)sinl_deg(x)) != bits(sx) && !(sx == 0 && sinl_deg(x) == 0)) bad("sincosd-special", "sin not correctly rounded at a multiple of 30/45");
-      if (bits((double)cosl_deg(x)) != bits(cx) && !(cx == 0 && cosl_deg(x) == 0)) bad("sincosd-special", "cos not correctly rounded at a multiple of 30/45");
-    }
-    // depends only on x mod 360 (exact shift when representable)
-    double y = x + 360.0;
-    if (y - 360.0 == x && std::fabs(x) > 1e-3) {
-      double s3, c3; Math::sincosd(y, s3, c3);
-      if (std::remainder(y, 360.0) == std::remainder(x, 360.0) && (bits(s3) != bits(sx) || bits(c3) != bits(cx)) && !(sx == 0)) bad("sincosd-period", "differs at x+360");
-    }
-    double t = Math::tand(x);
-    if (cx != 0 && std::fabs(sx / cx) < 1 / (2.2e-16 * 2.2e-16)) { if (bits(t) != bits(sx / cx)) bad("tand", "tand != sin/cos"); }
-  }
+});
+
+// sincosde(x, t) for the Lean model: the model does the reduction remquo / AngRound(d0 + t), takes the special-value branches
+// itself, and only in the generic branch uses the kernel values supplied here — an independent long double evaluation of
+// sin/cos of the exactly reduced angle d0 + t (each as a double pair hi + lo)
+static Reg r_sincosde("sincosde", [](const Args& a) {
+  double x = unhx(a[0]), t = unhx(a[1]);
+  long double d0 = remainderl((long double) x, 90.0L);               // exact
+  long double ang = (d0 + (long double) t) * (w_pi<long double>() / 180);
+  long double S = sinl(ang), C = cosl(ang);
+  double sx, cx; Math::sincosde(x, t, sx, cx);
+  current_op() = "sincosde " + a[0] + " " + a[1] + " " + hx((double) S) + " " + hx((double) C);
+  emit(hx(sx) + " " + hx(cx));
+});
+
+// sincosd / sind / cosd / tand / atand for the full Lean models around oracle kernels: long double sin / cos of the exactly
+// reduced angle, long double atan2 of atand's canonical octant problem (each rounded to double)
+static Reg r_trig1("trig1", [](const Args& a) {
+  double x = unhx(a[0]);
+  long double d0 = remainderl((long double) x, 90.0L);               // exact
+  long double ang = d0 * (w_pi<long double>() / 180);
+  long double S = sinl(ang), C = cosl(ang);
+  double yy = x, xx = 1; if (std::fabs(yy) > std::fabs(xx)) std::swap(xx, yy); if (std::signbit(xx)) xx = -xx;
+  long double A = atan2l((long double) yy, (long double) xx);
+  double sx, cx; Math::sincosd(x, sx, cx);
+  current_op() = "trig1 " + a[0] + " " + hx((double) S) + " " + hx((double) C) + " " + hx((double) A);
+  emit(hx(sx) + " " + hx(cx) + " " + hx(Math::sind(x)) + " " + hx(Math::cosd(x)) + " " + hx(Math::tand(x)) + " " + hx(Math::atand(x)));
 });
 
 static Reg r_atan2d("atan2d", [](const Args& a) {
@@ -80,65 +75,555 @@ static Reg r_atan2d("atan2d", [](const Args& a) {
   double r = Math::atan2d(y, x);
   current_op() = "atan2d " + a[0] + " " + a[1] + " " + hx(ang);
   emit(hx(r));
-  if (!std::isnan(x) && !std::isnan(y)) {
-    long double ref = atan2l((long double)y, (long double)x) * (180 / 3.14159265358979323846264338327950288L);
-    double e = ulps(r, ref);
-    if (fabsl(ref) > 1e-290L && !(e <= 2.0)) bad("atan2d-accuracy", "err ulps=" + std::to_string(e));
-    if (!(std::fabs(r) <= 180)) bad("atan2d-range", "result outside [-180,180]");
-    // exact on the axes
-    if (y == 0 && x != 0 && !(r == (std::signbit(x) ? std::copysign(180.0, y) : y) || (r == 0 && y == 0))) bad("atan2d-axes", "y=0");
-    if (x == 0 && y != 0 && std::fabs(r) != 90) bad("atan2d-axes", "x=0");
-    if (std::fabs(x) == std::fabs(y) && std::isfinite(x) && x != 0 && std::fabs(std::fabs(r) - (x > 0 ? 45 : 135)) != 0) bad("atan2d-axes", "diagonal");
-  }
 });
 
-static Reg r_taupf("taupf", [](const Args& a) {
-  double tau = unhx(a[0]), es = unhx(a[1]);
-  double tp = Math::taupf(tau, es), back = Math::tauf(tp, es);
-  emit(hx(tp) + " " + hx(back));
+// ------------------------------------------------------------------------------------------------------------------
+// the one-argument battery (all instantiations)
+// ------------------------------------------------------------------------------------------------------------------
+template<class T> static std::string oneline(T x) { return std::string("one ") + P<T>::tag() + " " + tok(x); }
+
+// returns the three exact-function results for the Lean side
+template<class T> static void chk1(T x, T& an, T& ar, T& lf) {
+  typedef typename P<T>::W W;
+  const T inf = std::numeric_limits<T>::infinity();
+  const T eps = std::numeric_limits<T>::epsilon();
+  // ---- AngNormalize: the exact IEEE remainder, ±180 and 0 carry the sign of x
+  an = Math::AngNormalize(x);
+  if (!std::isfinite(x)) { if (!std::isnan(an)) bad("angnormalize-nonfinite", "non-finite argument must give NaN, got " + fmt(an)); }
+  else {
+    T r = std::remainder(x, T(360));
+    bool ok = std::fabs(r) == 180 ? (std::fabs(an) == 180 && std::signbit(an) == std::signbit(x))
+                                  : (an == r && (r != 0 || std::signbit(an) == std::signbit(x)));
+    if (!ok) bad("angnormalize", "got " + fmt(an) + " exact remainder " + fmt(r));
+  }
+  // ---- AngRound: |x| >= 1/16 untouched; below, the nearest multiple of 1/16 - nextafter(1/16, 0) = 2^-(p+4); sign kept
+  ar = Math::AngRound(x);
+  if (std::isnan(x)) { if (!std::isnan(ar)) bad("anground", "NaN must stay NaN"); }
+  else {
+    T y = std::fabs(x), want;
+    if (!(y < T(1) / 16)) want = y;
+    else want = (T) w_ldexp(w_rint(w_ldexp((W) y, P<T>::p + 4)), -(P<T>::p + 4));
+    want = std::copysign(want, x);
+    if (!samebits(ar, want)) bad("anground", "got " + fmt(ar) + " want " + fmt(want));
+  }
+  // ---- LatFix
+  lf = Math::LatFix(x);
+  if (std::isnan(x) || std::fabs(x) > 90) { if (!std::isnan(lf)) bad("latfix", "outside [-90,90] must give NaN, got " + fmt(lf)); }
+  else if (!samebits(lf, x)) bad("latfix", "inside [-90,90] must be the identity, got " + fmt(lf));
+  // ---- sq: the correctly rounded square (exact residual by fma)
+  {
+    T r = Math::sq(x);
+    if (std::isfinite(x) && std::isfinite(r) && std::fabs(r) > std::numeric_limits<T>::min() / eps) {
+      T res = std::fma(x, x, -r);
+      if (!(2 * std::fabs(res) <= ulpT(r))) bad("sq", "x*x not correctly rounded: " + fmt(r));
+    } else if (std::isnan(x) != std::isnan(r)) bad("sq", "NaN handling");
+  }
+  // ---- sincosd / sind / cosd / tand
+  T sx, cx; Math::sincosd(x, sx, cx);
+  T sd = Math::sind(x), cd = Math::cosd(x), td = Math::tand(x);
+  if (!std::isfinite(x)) {
+    if (!(std::isnan(sx) && std::isnan(cx) && std::isnan(sd) && std::isnan(cd) && std::isnan(td)))
+      bad("sincosd-nonfinite", "non-finite argument must give NaN");
+  } else {
+    W rs, rc; bool sp; refSinCos<T>(x, W(0), rs, rc, &sp);
+    bool m3045 = std::remainder(x, T(30)) == 0 || std::remainder(x, T(45)) == 0;
+    if (m3045) {
+      // correctly rounded at multiples of 30 and 45 (closed forms 0, 1/2, sqrt(1/2), sqrt(3)/2, 1 rounded once)
+      if (!((T) rs == sx)) bad("sincosd-special", "sin not correctly rounded at a multiple of 30/45: got " + fmt(sx) + " want " + fmt((T) rs));
+      if (!((T) rc == cx)) bad("sincosd-special", "cos not correctly rounded at a multiple of 30/45: got " + fmt(cx) + " want " + fmt((T) rc));
+    } else {
+      double e1 = errUlps<T>(sx, rs), e2 = errUlps<T>(cx, rc);
+      if (!(e1 <= 2.0)) bad("sincosd-accuracy", "sin err ulps=" + fmtd(e1) + " got " + fmt(sx));
+      if (!(e2 <= 2.0)) bad("sincosd-accuracy", "cos err ulps=" + fmtd(e2) + " got " + fmt(cx));
+    }
+    // signed zeros: sin 0 has the sign of x (only source of -0), cos 0 is +0
+    if (sx == 0 && std::signbit(sx) != std::signbit(x)) bad("sincosd-zero-sign", "zero sine must carry the sign of x");
+    if (cx == 0 && std::signbit(cx)) bad("sincosd-zero-sign", "zero cosine must be +0");
+    if (!(std::fabs(sx) <= 1 && std::fabs(cx) <= 1)) bad("sincosd-range", "outside [-1,1]");
+    if (!samebits(sd, sx) || !samebits(cd, cx)) bad("sind-cosd-vs-sincosd", "sind/cosd differ from sincosd: " + fmt(sd) + " " + fmt(cd));
+    T s2, c2; Math::sincosd(-x, s2, c2);
+    if (!samebits(s2, -sx) || !samebits(c2, cx)) bad("sincosd-parity", "sin not odd or cos not even");
+    // depends only on x mod 360 (exact shift when representable); a zero sine keeps the sign of its own argument
+    for (int k = -1; k <= 1; k += 2) {
+      T y;
+      if (exactAdd<T>(x, T(360 * k), y)) {
+        T s3, c3; Math::sincosd(y, s3, c3);
+        if (!(sx == 0 ? s3 == 0 : samebits(s3, sx)) || !samebits(c3, cx)) bad("sincosd-period", "differs at x" + std::string(k > 0 ? "+" : "-") + "360");
+      }
+    }
+    // "obey exactly the elementary properties": sin x = cos(90 - x) when 90 - x is exact
+    {
+      T z;
+      if (exactAdd<T>(T(90), -x, z)) {
+        T sz, cz; Math::sincosd(z, sz, cz);
+        if (!(sz == cx && cz == sx)) bad("sincosd-cofunction", "sin(90-x) != cos x or cos(90-x) != sin x");
+      }
+    }
+    // sincosde with a zero correction: the same reduction, branch and values when AngRound does not touch the reduced angle
+    {
+      T d0 = std::remainder(x, T(90)), se, ce;
+      Math::sincosde(x, std::copysign(T(0), x), se, ce);
+      if (d0 == 0 || std::fabs(d0) >= T(1) / 16) {
+        if (!samebits(se, sx) || !samebits(ce, cx)) bad("sincosde-zero-correction", "sincosde(x, 0) differs from sincosd(x): " + fmt(se) + " " + fmt(ce));
+      }
+    }
+    // tand: tangent of x; odd; ±1 at odd multiples of 45; finite and huge at odd multiples of 90
+    if (rc == 0) {
+      if (!(std::isfinite(td) && std::fabs(td) >= 1 / eps)) bad("tand-pole", "odd multiple of 90 must give a large finite value, got " + fmt(td));
+    } else {
+      W rt = rs / rc;
+      if (std::remainder(x, T(45)) == 0 && std::remainder(x, T(90)) != 0) { if (!((T) rt == td)) bad("tand-special", "tand at an odd multiple of 45 is not ±1: " + fmt(td)); }
+      else if (rs == 0) { if (td != 0) bad("tand-special", "tand at a multiple of 180 is not 0"); }
+      else { double e = errUlps<T>(td, rt); if (!(e <= 6.0)) bad("tand-accuracy", "err ulps=" + fmtd(e) + " got " + fmt(td)); }
+    }
+    if (x == 0 && !samebits(td, x)) bad("tand-special", "tand(±0) must be ±0");
+    if (!samebits(Math::tand(-x), -td)) bad("tand-odd", "tand(-x) != -tand(x)");
+  }
+  // ---- atand
+  {
+    T r = Math::atand(x);
+    if (std::isnan(x)) { if (!std::isnan(r)) bad("atand", "NaN must give NaN"); }
+    else {
+      if (!(errUlps<T>(Math::atand(-x), -(W) r) <= 4.0)) bad("atand-accuracy", "atand(-x) is not -atand(x) to round-off");
+      if (x == 0) { if (!samebits(r, x)) bad("atand-special", "atand(±0) must be ±0"); }
+      else if (std::fabs(x) == 1) { if (r != std::copysign(T(45), x)) bad("atand-special", "atand(±1) must be ±45, got " + fmt(r)); }
+      else if (std::fabs(x) == inf) { if (r != std::copysign(T(90), x)) bad("atand-special", "atand(±inf) must be ±90, got " + fmt(r)); }
+      else {
+        W ref = w_atan((W) x) * (180 / w_pi<W>());
+        double e = errUlps<T>(r, ref);
+        if (!(e <= 4.0)) bad("atand-accuracy", "err ulps=" + fmtd(e) + " got " + fmt(r));
+        if (!(std::fabs(r) <= 90)) bad("atand-range", "outside [-90,90]");
+      }
+    }
+  }
+}
+
+template<class T> static void op_one(const Args& a) {
+  T x = untok<T>(a[1]), an, ar, lf;
+  chk1<T>(x, an, ar, lf);
+  emit(tok(an) + " " + tok(ar) + " " + tok(lf));
+}
+static Reg r_one("one", [](const Args& a) {
+  if (a[0] == "f") op_one<float>(a); else if (a[0] == "l") op_one<long double>(a); else op_one<double>(a);
+});
+
+// every float bit pattern in [lo, hi): the battery only (a #BAD line names the single value as a replayable `one f x`)
+static Reg r_f32scan("f32scan", [](const Args& a) {
+  uint64_t lo = std::strtoull(a[0].c_str(), nullptr, 10), hi = std::strtoull(a[1].c_str(), nullptr, 10);
+  std::string me = current_op();
+  uint64_t n = 0;
+  for (uint64_t b = lo; b < hi; ++b) {
+    uint32_t u = (uint32_t) b; float x; std::memcpy(&x, &u, 4);
+    current_op() = oneline<float>(x);
+    float an, ar, lf; chk1<float>(x, an, ar, lf); ++n;
+  }
+  current_op() = me;
+  stat("float_patterns_scanned", (long) n);
+  emit(std::to_string(n));
+});
+
+// ------------------------------------------------------------------------------------------------------------------
+// two-argument functions
+// ------------------------------------------------------------------------------------------------------------------
+template<class T> static void op_gsum(const Args& a) {
+  T u = untok<T>(a[1]), v = untok<T>(a[2]), t; T s = Math::sum(u, v, t);
+  // Accumulator<T>::fastsum (private, documented "requires abs(u) >= abs(v)", currently unused by the library): same contract
+  T fs = s, ft = t;
+  if (std::fabs(u) >= std::fabs(v)) fs = Accumulator<T>::fastsum(u, v, ft);
+  emit(tok(s) + " " + tok(t) + " " + tok(fs) + " " + tok(ft));
+}
+static Reg r_gsum("gsum", [](const Args& a) {
+  if (a[0] == "f") op_gsum<float>(a); else if (a[0] == "l") op_gsum<long double>(a); else op_gsum<double>(a);
+});
+
+template<class T> static void op_gangdiff(const Args& a) {
+  T x = untok<T>(a[1]), y = untok<T>(a[2]), e; T d = Math::AngDiff(x, y, e);
+  T d1 = Math::AngDiff(x, y);
+  emit(tok(d) + " " + tok(e));
+  if (!samebits(d, d1)) bad("angdiff-overloads", "AngDiff(x, y) differs from AngDiff(x, y, e)");
+}
+static Reg r_gangdiff("gangdiff", [](const Args& a) {
+  if (a[0] == "f") op_gangdiff<float>(a); else if (a[0] == "l") op_gangdiff<long double>(a); else op_gangdiff<double>(a);
+});
+
+template<class T> static void op_gatan2d(const Args& a) {
+  typedef typename P<T>::W W;
+  T y = untok<T>(a[1]), x = untok<T>(a[2]);
+  T r = Math::atan2d(y, x);
+  emit(tok(r));
+  if (std::isnan(x) || std::isnan(y)) { if (!std::isnan(r)) bad("atan2d-nan", "NaN argument must give NaN"); return; }
+  W ref = w_atan2((W) y, (W) x) * (180 / w_pi<W>());
+  double e = errUlps<T>(r, ref);
+  bool axis = x == 0 || y == 0 || (std::fabs(x) == std::fabs(y));
+  // an angle whose radian value is subnormal in T has lost relative accuracy inside atan2 itself
+  // round-off of three operations (atan2, the rounded constant degree, the division) and of the final offset: 4 ulp
+  if (!axis && w_fabs(ref) * (w_pi<W>() / 180) >= (W) std::numeric_limits<T>::min() && !(e <= 4.0)) bad("atan2d-accuracy", "err ulps=" + fmtd(e) + " got " + fmt(r));
+  if (!(std::fabs(r) <= 180)) bad("atan2d-range", "result outside [-180,180]");
+  // exact on the axes and the diagonals
+  if (y == 0 && !samebits(r, std::signbit(x) ? std::copysign(T(180), y) : y)) bad("atan2d-axes", "y = ±0: got " + fmt(r));
+  if (x == 0 && y != 0 && !samebits(r, std::copysign(T(90), y))) bad("atan2d-axes", "x = ±0: got " + fmt(r));
+  if (std::fabs(x) == std::fabs(y) && x != 0 && !samebits(r, std::copysign(T(std::signbit(x) ? 135 : 45), y))) bad("atan2d-axes", "diagonal: got " + fmt(r));
+  if (std::isinf(x) && std::isfinite(y) && !samebits(r, std::signbit(x) ? std::copysign(T(180), y) : std::copysign(T(0), y))) bad("atan2d-axes", "x = ±inf: got " + fmt(r));
+  if (std::isinf(y) && std::isfinite(x) && !samebits(r, std::copysign(T(90), y))) bad("atan2d-axes", "y = ±inf: got " + fmt(r));
+  // odd in y (to round-off; exactly on the axes, which is covered above)
+  if (!(errUlps<T>(Math::atan2d(-y, x), -(W) r) <= 4.0)) bad("atan2d-accuracy", "atan2d(-y, x) is not -atan2d(y, x) to round-off");
+  if (samebits(x, T(1)) && !samebits(Math::atand(y), r)) bad("atand-vs-atan2d", "atand(y) != atan2d(y, 1)");
+}
+static Reg r_gatan2d("gatan2d", [](const Args& a) {
+  if (a[0] == "f") op_gatan2d<float>(a); else if (a[0] == "l") op_gatan2d<long double>(a); else op_gatan2d<double>(a);
+});
+
+template<class T> static void op_gsincosde(const Args& a) {
+  typedef typename P<T>::W W;
+  T x = untok<T>(a[1]), t = untok<T>(a[2]), sx, cx;
+  Math::sincosde(x, t, sx, cx);
+  emit(tok(sx) + " " + tok(cx));
+  if (!(std::isfinite(x) && std::isfinite(t))) { if (!(std::isnan(sx) && std::isnan(cx))) bad("sincosde-nonfinite", "non-finite argument must give NaN"); return; }
+  W rs, rc; bool sp; refSinCos<T>(x, (W) t, rs, rc, &sp);
+  if (t == 0 && (std::remainder(x, T(30)) == 0 || std::remainder(x, T(45)) == 0)) {
+    if (!((T) rs == sx)) bad("sincosde-special", "sin not correctly rounded at a multiple of 30/45: got " + fmt(sx) + " want " + fmt((T) rs));
+    if (!((T) rc == cx)) bad("sincosde-special", "cos not correctly rounded at a multiple of 30/45: got " + fmt(cx) + " want " + fmt((T) rc));
+  } else {
+    // 2 ulp as sincosd + 1 ulp for rounding x + t to working precision + the documented AngRound gap (half of 2^-(p+4) degrees)
+    W floor_ = w_ldexp(W(1), -(P<T>::p + 5)) * (w_pi<W>() / 180) * W(1.01);
+    T us = ulpT((T) rs), uc = ulpT((T) rc);
+    if (!(w_fabs((W) sx - rs) <= 3 * (W) us + floor_)) bad("sincosde-accuracy", "sin err ulps=" + fmtd(errUlps<T>(sx, rs)) + " got " + fmt(sx));
+    if (!(w_fabs((W) cx - rc) <= 3 * (W) uc + floor_)) bad("sincosde-accuracy", "cos err ulps=" + fmtd(errUlps<T>(cx, rc)) + " got " + fmt(cx));
+  }
+  if (cx == 0 && std::signbit(cx)) bad("sincosde-zero-sign", "zero cosine must be +0");
+  if (!(std::fabs(sx) <= 1 && std::fabs(cx) <= 1)) bad("sincosde-range", "outside [-1,1]");
+  T s2, c2; Math::sincosde(-x, -t, s2, c2);
+  if (!(sx == 0 ? s2 == 0 : samebits(s2, -sx)) || !samebits(c2, cx)) bad("sincosde-parity", "sin not odd or cos not even in (x, t)");
+  for (int k = -1; k <= 1; k += 2) {
+    T y;
+    if (exactAdd<T>(x, T(360 * k), y)) {
+      T s3, c3; Math::sincosde(y, t, s3, c3);
+      if (!(sx == 0 ? s3 == 0 : samebits(s3, sx)) || !samebits(c3, cx)) bad("sincosde-period", "differs at x" + std::string(k > 0 ? "+" : "-") + "360");
+    }
+  }
+}
+static Reg r_gsincosde("gsincosde", [](const Args& a) {
+  if (a[0] == "f") op_gsincosde<float>(a); else if (a[0] == "l") op_gsincosde<long double>(a); else op_gsincosde<double>(a);
+});
+
+// eatanhe / taupf / tauf
+template<class T> static void op_gtaupf(const Args& a) {
+  typedef typename P<T>::W W;
+  const T eps = std::numeric_limits<T>::epsilon();
+  T tau = untok<T>(a[1]), es = untok<T>(a[2]);
+  T tp = Math::taupf(tau, es), back = Math::tauf(tp, es);
+  emit(tok(tp) + " " + tok(back));
+  // eatanhe(x, es) = es atanh(es x) (es > 0), -es atan(es x) (es <= 0), odd in x
+  {
+    T xx = tau / std::hypot(T(1), tau), ea = Math::eatanhe(xx, es);
+    if (std::isfinite(xx) && std::fabs(es) < 1) {
+      W ref = es > 0 ? (W) es * w_atanh((W) es * (W) xx) : -(W) es * w_atan((W) es * (W) xx);
+      double e = errUlps<T>(ea, ref);
+      // condition number of atanh at es*x (the product is rounded before atanh sees it); atan is well conditioned
+      W ex = (W) es * (W) xx, cond = es > 0 && ex != 0 ? w_fabs(ex / ((1 - ex * ex) * w_atanh(ex))) : W(1);
+      if (std::fabs(ea) >= std::numeric_limits<T>::min() && !(e <= 4.0 + 2 * (double) cond)) bad("eatanhe", "err ulps=" + fmtd(e));
+      if (!(errUlps<T>(Math::eatanhe(-xx, es), -ref) <= 4.0 + 2 * (double) cond || std::fabs(ea) < std::numeric_limits<T>::min())) bad("eatanhe", "eatanhe(-x) is not -eatanhe(x) to round-off");
+    }
+  }
+  if (!std::isfinite(tau) && !std::isnan(tau)) { if (!samebits(tp, tau)) bad("taupf-inf", "taupf(±inf) must be ±inf"); }
   if (std::isfinite(tau) && std::fabs(es) < 1) {
-    // closed form in long double
-    long double t = tau, e = es, t1 = hypotl(1.0L, t);
-    long double ea = e > 0 ? e * atanhl(e * t / t1) : -e * atanl(e * t / t1);
-    long double sig = sinhl(ea), ref = hypotl(1.0L, sig) * t - sig * t1;
-    // conditioning: for |es| close to 1 and large tau the subtraction cancels; scale tolerance
-    double tol = 8 * ulp((double)ref) * std::fmax(1.0, (double)(fabsl(hypotl(1.0L, sig) * t) / fmaxl(fabsl(ref), 1e-300L)));
-    if (!(fabsl((long double)tp - ref) <= tol)) bad("taupf-closed-form", "taupf differs from closed form by " + std::to_string((double)fabsl(tp - ref)));
-    double rel = std::fabs(back - tau) / std::fmax(std::fabs(tau), 1e-300);
+    W t = tau, e = es, t1 = w_hypot(W(1), t);
+    W ea = e > 0 ? e * w_atanh(e * t / t1) : -e * w_atan(e * t / t1);
+    W sig = w_sinh(ea), ref = w_hypot(W(1), sig) * t - sig * t1;
+    // conditioning: for |es| close to 1 and large tau the subtraction cancels; scale the tolerance
+    W aref = w_fabs(ref), big = w_fabs(w_hypot(W(1), sig) * t);
+    W cond = aref > 0 ? big / aref : W(1); if (cond < 1) cond = 1;
+    W tol = 8 * (W) ulpT((T) ref) * cond;
+    if (!(w_fabs((W) tp - ref) <= tol)) bad("taupf-closed-form", "taupf differs from the closed form: got " + fmt(tp) + " want " + fmt((T) ref));
     // tauf(taupf(tau)) == tau with high relative accuracy; conditioning factor 1/(1-e^2) for oblate
-    double cond = 1 / (1 - es * std::fabs(es)); if (cond < 1) cond = 1;
-    if (tau != 0 && !(rel <= 64 * 2.2e-16 * cond)) bad("tauf-taupf", "relative error " + std::to_string(rel));
+    T rel = std::fabs(back - tau) / std::fmax(std::fabs(tau), std::numeric_limits<T>::min());
+    T cnd = 1 / (1 - es * std::fabs(es)); if (cnd < 1) cnd = 1;
+    // class of the inputs for which Math::tauf leaves through its early exit with the *low-order* starting guess taup/(1-e^2)
+    // (|taup| <= 70 but |taup|/(1-e^2) >= taumax = 2/sqrt(eps)); decided from the inputs only
+    bool lowguess = std::fabs(tp) <= 70 && !(std::fabs(tp / (1 - es * std::fabs(es))) < 2 / std::sqrt(eps));
+    if (tau != 0 && std::fabs(tau) >= std::numeric_limits<T>::min() / eps && !(rel <= 64 * eps * cnd))
+      bad("tauf-taupf", "relative error " + fmt(rel) + (lowguess ? " class=early-exit-on-low-order-guess" : ""));
     if (tau == 0 && back != 0) bad("tauf-taupf", "zero not preserved");
+    // both maps are odd (to the same tolerances; bitwise symmetry is not part of the property)
+    if (!(w_fabs((W) Math::taupf(-tau, es) + ref) <= tol)) bad("taupf-closed-form", "taupf(-tau) differs from -(closed form)");
+    {
+      T back2 = Math::tauf(-tp, es), rel2 = std::fabs(back2 + tau) / std::fmax(std::fabs(tau), std::numeric_limits<T>::min());
+      if (tau != 0 && std::fabs(tau) >= std::numeric_limits<T>::min() / eps && !(rel2 <= 64 * eps * cnd))
+        bad("tauf-taupf", "relative error " + fmt(rel2) + " at the mirrored argument" + (lowguess ? " class=early-exit-on-low-order-guess" : ""));
+    }
   }
+}
+static Reg r_gtaupf("gtaupf", [](const Args& a) {
+  if (a[0] == "f") op_gtaupf<float>(a); else if (a[0] == "l") op_gtaupf<long double>(a); else op_gtaupf<double>(a);
 });
 
-static Reg r_accum("accum", [](const Args& a) {
-  // args: sequence of ops "a:<hex>" add, "n" negate, "i:<int>" times int, "m:<hex>" times double
-  Accumulator<double> acc;
-  for (auto& t : a) {
-    if (t[0] == 'a') acc += unhx(t.substr(2));
-    else if (t[0] == 'n') acc *= -1;
-    else if (t[0] == 'i') acc *= std::atoi(t.c_str() + 2);
-    else if (t[0] == 'm') acc *= unhx(t.substr(2));
-    else if (t[0] == 's') acc = unhx(t.substr(2));                 // assignment: the held sum is exactly y afterwards
-    else if (t[0] == 'd') acc -= unhx(t.substr(2));
-    else if (t[0] == 'c') { Accumulator<double> b(acc); acc = Accumulator<double>(); acc = b; }   // copy round trip
-    else if (t[0] == 'r') {                                      // remainder on a copy: must not disturb the accumulator it was copied from
-      // (no range oracle: the header's "[-y/2, y/2]" holds only up to the low word, e.g. s = -3147257530813685.5, t = 0.047, y = 1 gives
-      //  0.547; the property does not speak about it — observation O3 in DESIGN.md)
-      double y = unhx(t.substr(2)); Accumulator<double> b(acc); b.remainder(y);
+// ------------------------------------------------------------------------------------------------------------------
+// the small helpers of Math.hpp: polyval, norm, hypot3, swab, NaN, infinity, pi, degree, digits
+// ------------------------------------------------------------------------------------------------------------------
+template<class T> static void op_gpoly(const Args& a) {
+  typedef typename P<T>::W W;
+  int N = std::atoi(a[1].c_str()); T x = untok<T>(a[2]);
+  std::vector<T> p; for (size_t i = 3; i < a.size(); ++i) p.push_back(untok<T>(a[i]));
+  if (p.empty()) p.push_back(T(0));
+  T r = Math::polyval(N, p.data(), x);
+  emit(tok(r));
+  if (N < 0) { if (!samebits(r, T(0))) bad("polyval", "N < 0 must give 0"); return; }
+  if (N == 0) { if (!samebits(r, p[0])) bad("polyval", "N = 0 must give p[0] whatever x is"); return; }
+  if (!std::isfinite(x)) return;
+  // value of the polynomial; Horner's rounding error is bounded by 2N eps sum |p_n| |x|^(N-n)
+  W v = 0, m = 0;
+  for (int n = 0; n <= N; ++n) { v = v * (W) x + (W) p[n]; m = m * w_fabs((W) x) + w_fabs((W) p[n]); }
+  W tol = 2 * N * (W) std::numeric_limits<T>::epsilon() * m + (W) std::numeric_limits<T>::min();
+  if (std::isfinite(r) && !(w_fabs((W) r - v) <= tol)) bad("polyval", "differs from the polynomial's value: got " + fmt(r) + " want " + fmt((T) v));
+}
+static Reg r_gpoly("gpoly", [](const Args& a) {
+  if (a[0] == "f") op_gpoly<float>(a); else if (a[0] == "l") op_gpoly<long double>(a); else op_gpoly<double>(a);
+});
+
+template<class T> static void op_gnorm(const Args& a) {
+  typedef typename P<T>::W W;
+  T x = untok<T>(a[1]), y = untok<T>(a[2]), z = untok<T>(a[3]);
+  T xn = x, yn = y; Math::norm(xn, yn);
+  T h3 = Math::hypot3(x, y, z);
+  emit(tok(xn) + " " + tok(yn) + " " + tok(h3));
+  if (std::isfinite(x) && std::isfinite(y) && std::isfinite(z)) {
+    W h = w_hypot((W) x, (W) y);
+    if (h > 0 && (T) h >= std::numeric_limits<T>::min() && std::isfinite((T) h)) {
+      if (!(errUlps<T>(xn, (W) x / h) <= 3.0 || std::fabs(xn) < std::numeric_limits<T>::min()) ||
+          !(errUlps<T>(yn, (W) y / h) <= 3.0 || std::fabs(yn) < std::numeric_limits<T>::min()))
+        bad("norm", "not x/hypot(x,y), y/hypot(x,y): " + fmt(xn) + " " + fmt(yn));
     }
-    else if (t[0] == 'q') {                                      // Sum(y) is const and equals (acc += y)()
-      double y = unhx(t.substr(2)); Accumulator<double> b(acc); double q = acc.Sum(y); b += y;
-      if (!(q == b() || (std::isnan(q) && std::isnan(b())))) bad("accum-sum-const", "Sum(y) differs from (acc += y)()");
+    W r3 = w_hypot(w_hypot((W) x, (W) y), (W) z);
+    if (std::isfinite((T) r3) && (T) r3 >= std::numeric_limits<T>::min() && !(errUlps<T>(h3, r3) <= 4.0)) bad("hypot3", "got " + fmt(h3) + " want " + fmt((T) r3));
+  }
+}
+static Reg r_gnorm("gnorm", [](const Args& a) {
+  if (a[0] == "f") op_gnorm<float>(a); else if (a[0] == "l") op_gnorm<long double>(a); else op_gnorm<double>(a);
+});
+
+template<class T> static std::string constline() {
+  typedef typename P<T>::W W;
+  T pi = Math::pi<T>(), deg = Math::degree<T>(), nan = Math::NaN<T>(), inf = Math::infinity<T>();
+  if (!((T) w_pi<W>() == pi)) bad("pi", "pi<T>() is not the correctly rounded pi");
+  if (!(errUlps<T>(deg, w_pi<W>() / 180) <= 1.0)) bad("degree", "degree<T>() is not pi/180 to 1 ulp");
+  if (!std::isnan(nan)) bad("NaN", "NaN<T>() is not a NaN");
+  if (!(std::isinf(inf) && inf > 0)) bad("infinity", "infinity<T>() is not +inf");
+  return tok(pi) + " " + tok(deg);
+}
+static Reg r_gconst("gconst", [](const Args&) {
+  std::string r = constline<float>() + " " + constline<double>() + " " + constline<long double>();
+  if (Math::digits() != std::numeric_limits<Math::real>::digits || Math::digits10() != std::numeric_limits<Math::real>::digits10 ||
+      Math::extra_digits() != 0 || Math::set_digits(100) != Math::digits()) bad("digits", "digits()/digits10()/extra_digits()/set_digits() wrong for double");
+  if (!(Math::NaN<int>() == std::numeric_limits<int>::max() && Math::infinity<int>() == std::numeric_limits<int>::max())) bad("NaN-int", "int versions must return max()");
+  if (Math::qd != 90 || Math::hd != 180 || Math::td != 360 || Math::dm != 60 || Math::ms != 60 || Math::ds != 3600) bad("degree-constants", "qd/hd/td/dm/ms/ds");
+  emit(r);
+});
+static Reg r_swab("swab", [](const Args& a) {
+  uint64_t b = std::strtoull(a[0].c_str(), nullptr, 16);
+  auto rev = [](uint64_t v, int n) { uint64_t r = 0; for (int i = 0; i < n; ++i) r |= ((v >> (8 * i)) & 0xffULL) << (8 * (n - 1 - i)); return r; };
+  uint64_t r8 = Math::swab<uint64_t>(b); uint32_t r4 = Math::swab<uint32_t>((uint32_t) b); uint16_t r2 = Math::swab<uint16_t>((uint16_t) b);
+  double d; std::memcpy(&d, &b, 8); double ds = Math::swab<double>(d); uint64_t db; std::memcpy(&db, &ds, 8);
+  float f; uint32_t b4 = (uint32_t) b; std::memcpy(&f, &b4, 4); float fs = Math::swab<float>(f); uint32_t fb; std::memcpy(&fb, &fs, 4);
+  char buf[40]; std::snprintf(buf, sizeof buf, "%016llx", (unsigned long long) r8); emit(buf);
+  // (signalling-NaN payloads may be quietened when a double is passed by value through the x87 stack: compare modulo the quiet bit)
+  if (r8 != rev(b, 8) || r4 != (uint32_t) rev((uint32_t) b, 4) || r2 != (uint16_t) rev((uint16_t) b, 2)) bad("swab", "integer byte swap wrong");
+  if (!std::isnan(d) && !std::isnan(ds) && db != rev(b, 8)) bad("swab", "double byte swap wrong");
+  if (!std::isnan(f) && !std::isnan(fs) && fb != (uint32_t) rev(b4, 4)) bad("swab", "float byte swap wrong");
+  if (Math::swab<uint64_t>(r8) != b) bad("swab", "not an involution");
+});
+
+// ------------------------------------------------------------------------------------------------------------------
+// Accumulator<float|double>: histories over every public member.  After each operation the state (_s, _t) is reported
+// (and the returned value for queries), the relations are decided in Lean in exact dyadic arithmetic.
+//   s:<y> operator=(y)      S:<y> Accumulator(y) + copy-assignment      a:<y> +=     d:<y> -=     n  *= -1     i:<n> *= int
+//   m:<y> *= y              c copy-construct / assign round trip          R:<y> remainder(y)        q:<y> operator()(y) (const)
+//   k:<y> == != < <= > >= against y (const)
+// ------------------------------------------------------------------------------------------------------------------
+template<class T> static void op_gacc(const Args& a) {
+  Accumulator<T> acc;
+  std::string res;
+  auto st = [&](const Accumulator<T>& z) { return tok(z._s) + " " + tok(z._t); };
+  res = st(acc);                                   // state of a default-constructed accumulator
+  if (!samebits(acc(), T(0))) bad("accum-default", "Accumulator() does not hold 0");
+  for (size_t i = 1; i < a.size(); ++i) {
+    const std::string& t = a[i];
+    T y = t.size() > 2 && t[0] != 'i' ? untok<T>(t.substr(2)) : T(0);
+    Accumulator<T> before(acc);
+    std::string extra;
+    switch (t[0]) {
+    case 's': acc = y; break;
+    case 'S': { Accumulator<T> b(y); acc = b; break; }
+    case 'a': acc += y; break;
+    case 'd': acc -= y; break;
+    case 'n': acc *= -1; break;
+    case 'i': acc *= std::atoi(t.c_str() + 2); break;
+    case 'm': acc *= y; break;
+    case 'c': { Accumulator<T> b(acc); acc = Accumulator<T>(); acc = b; break; }
+    case 'R': acc.remainder(y); extra = " " + tok(acc()); break;
+    case 'q': {
+      const Accumulator<T>& ca = acc; T q = ca(y); Accumulator<T> b(acc); b += y;
+      if (!samebits(q, b())) bad("accum-sum-const", "operator()(y) differs from (acc += y)()");
+      extra = " " + tok(q); break;
+    }
+    case 'k': {
+      const Accumulator<T>& ca = acc; T v = ca();
+      bool ok = (ca == y) == (v == y) && (ca != y) == (v != y) && (ca < y) == (v < y) && (ca <= y) == (v <= y) && (ca > y) == (v > y) && (ca >= y) == (v >= y);
+      if (!ok) bad("accum-compare", "comparison operators disagree with the reported value");
+      break;
+    }
+    default: bad("harness", "unknown accumulator token " + t);
+    }
+    if ((t[0] == 'q' || t[0] == 'k' || t[0] == 'c') && !(samebits(acc._s, before._s) && samebits(acc._t, before._t)))
+      bad("accum-const", "a const query / copy changed the accumulator");
+    if (!samebits(acc(), acc._s)) bad("accum-report", "operator()() is not the high word");
+    res += " " + st(acc) + extra;
+  }
+  emit(res);
+}
+static Reg r_gacc("gacc", [](const Args& a) { if (a[0] == "f") op_gacc<float>(a); else op_gacc<double>(a); });
+
+// ------------------------------------------------------------------------------------------------------------------
+// generators
+// ------------------------------------------------------------------------------------------------------------------
+static const std::vector<double> kAnch = {0, 30, 45, 60, 90, 120, 135, 150, 180, 210, 225, 240, 270, 300, 315, 330, 360, 540, 720,
+                                          1.0 / 16, 1.0 / 32, 1.0 / 64, 3.0 / 64, 15, 75, 1, 89, 91, 179, 181};
+template<class T> static T nasty(Rng& r) {
+  const T inf = std::numeric_limits<T>::infinity();
+  T x;
+  switch (r.irange(0, 11)) {
+  case 0: x = (T) r.pick(kAnch); break;
+  case 1: { x = (T) r.pick(kAnch); for (int k = r.irange(1, 3); k--; ) x = std::nextafter(x, inf); break; }
+  case 2: { x = (T) r.pick(kAnch); for (int k = r.irange(1, 3); k--; ) x = std::nextafter(x, -inf); break; }
+  case 3: x = (T) r.range(-180, 180); break;
+  case 4: x = (T) r.range(-720, 720); break;
+  case 5: x = std::ldexp((T) r.range(1, 2) + (T) r.u() * std::numeric_limits<T>::epsilon(),
+                         r.irange(std::numeric_limits<T>::min_exponent - std::numeric_limits<T>::digits, std::numeric_limits<T>::max_exponent - 1)); break;
+  case 6: x = T(90) * (T) r.irange(-100000, 100000); break;
+  case 7: x = T(30) * (T) r.irange(-24, 24) + (T) r.irange(-2, 2) * std::ldexp(T(1), -r.irange(std::numeric_limits<T>::digits - 13, std::numeric_limits<T>::digits - 1)); break;
+  case 8: x = (T) r.pick(kAnch) + T(360) * (T) r.irange(-5, 5); break;
+  case 9: x = T(15) * (T) r.irange(-2000, 2000); break;
+  case 10: x = std::ldexp((T) r.range(-1, 1), -r.irange(3, 12)); break;          // around the AngRound threshold 1/16
+  default: x = std::ldexp((T) r.irange(1, 1 << 20), r.irange(-30, 30)); break;
+  }
+  if (r.coin()) x = -x;
+  return x;
+}
+template<class T> static T special_or(Rng& r, T x) {
+  const T inf = std::numeric_limits<T>::infinity();
+  switch (r.irange(0, 5)) { case 0: return std::numeric_limits<T>::quiet_NaN(); case 1: return inf; case 2: return -inf;
+    case 3: return r.coin() ? T(0) : -T(0); case 4: return std::numeric_limits<T>::denorm_min() * (T) r.irange(1, 5) * (r.coin() ? 1 : -1);
+    default: return x; }
+}
+
+template<class T> static void gen_T(Rng& r, long n) {
+  const std::string tg = P<T>::tag();
+  const T eps = std::numeric_limits<T>::epsilon();
+  const int p = std::numeric_limits<T>::digits, emin = std::numeric_limits<T>::min_exponent - p, emax = std::numeric_limits<T>::max_exponent;
+  for (long i = 0; i < n; ++i) {
+    T x = nasty<T>(r), y = nasty<T>(r);
+    if (i % 97 == 0) x = special_or<T>(r, x);
+    stratum("one-" + tg); run("one", {tg, tok(x)});
+    // ---- AngDiff pairs: related magnitudes to exercise cancellation and the ±180 / 0 sign rules
+    if (i % 3 == 0) y = x + (T) r.pick(std::vector<double>{0, 180, -180, 360, -360, 1e-13, 90});
+    if (i % 5 == 0) y = -x;
+    if (i % 7 == 0) { y = x + T(180); for (int k = r.irange(0, 2); k--; ) y = std::nextafter(y, r.coin() ? T(1e30) : T(-1e30)); }
+    stratum("angdiff-" + tg); run("gangdiff", {tg, tok(x), tok(y)});
+    // ---- sum pairs: equal exponents, 1..p+8 binades apart, cancellation, subnormals, near overflow
+    T u = std::ldexp((T) r.range(-2, 2), r.irange(-60, 60)), v;
+    switch (i % 8) {
+    case 0: v = -u * (1 + (T) r.irange(-3, 3) * eps); break;
+    case 1: v = std::ldexp((T) r.range(-2, 2), std::ilogb(u == 0 ? T(1) : u) - r.irange(0, p + 8)); break;
+    case 2: u = std::ldexp((T) r.range(1, 2), r.irange(emin, emin + 2 * p)); v = std::ldexp((T) r.range(-2, 2), r.irange(emin, emin + 2 * p)); break;
+    case 3: u = std::ldexp((T) r.range(1, 2), emax - 3) * (r.coin() ? 1 : -1); v = std::ldexp((T) r.range(1, 2), r.irange(emax - 3 - p - 4, emax - 3)) * (r.coin() ? 1 : -1); break;
+    case 4: u = (T) r.irange(-1000, 1000); v = std::ldexp((T) r.irange(-1000, 1000), -r.irange(0, p + 3)); break;   // ties
+    default: v = std::ldexp((T) r.range(-2, 2), r.irange(-60, 60)); break;
+    }
+    if (i % 89 == 0) v = special_or<T>(r, v);
+    stratum("sum-" + tg); run("gsum", {tg, tok(u), tok(v)});
+    // ---- atan2d: octants, axes, diagonals, signed zeros, infinities, huge ratios
+    T ay = (i % 7 == 0) ? (T) r.pick(std::vector<double>{0.0, -0.0, 1, -1, 1e-30, INFINITY, -INFINITY}) : std::ldexp((T) r.range(-1, 1), r.irange(-40, 40));
+    T ax = (i % 11 == 0) ? r.pick(std::vector<T>{T(0), -T(0), T(1), T(-1), ay, -ay, std::numeric_limits<T>::infinity()}) : std::ldexp((T) r.range(-1, 1), r.irange(-40, 40));
+    if (i % 13 == 0) ax = T(1);
+    stratum("atan2d-" + tg); run("gatan2d", {tg, tok(ay), tok(ax)});
+    // ---- sincosde: x mostly in the documented range, correction t tiny / below half an ulp of the reduced angle / moderate
+    {
+      T xe = (i % 4 == 0) ? nasty<T>(r) : (T) (30 * r.irange(-12, 12)) + ((i % 4 == 1) ? T(0) : (T) r.irange(-3, 3) * std::ldexp(T(1), -r.irange(p - 14, p - 1)));
+      if (i % 4 == 3) xe = (T) r.range(-180, 180);
+      T te;
+      switch (r.irange(0, 7)) {
+      case 0: te = T(0); break; case 1: te = -T(0); break;
+      case 2: te = std::ldexp((T) r.range(-1, 1), -p - r.irange(0, 12)) * std::fmax(std::fabs(std::remainder(xe, T(90))), T(1)); break;   // rounds away or nearly
+      case 3: te = std::ldexp((T) r.range(-1, 1), -r.irange(p - 10, p + 4)); break;
+      case 4: te = std::ldexp((T) r.range(-1, 1), -r.irange(8, 20)); break;
+      case 5: te = -std::remainder(xe, T(90)); break;                                                                                     // exact cancellation of the reduced angle
+      case 6: te = std::ldexp((T) r.range(-1, 1), -r.irange(p + 2, p + 30)); break;                                                       // far below the AngRound gap
+      default: te = (T) r.irange(-3, 3) * std::ldexp(T(1), -(p + 4)); break;                                                              // multiples of the AngRound gap
+      }
+      if (i % 101 == 0) te = special_or<T>(r, te);
+      stratum("sincosde-" + tg); run("gsincosde", {tg, tok(xe), tok(te)});
+      if (tg == "d") run("sincosde", {hx((double) xe), hx((double) te)});
+    }
+    if (i % 2 == 0) {
+      T es = (T) r.range(-0.999, 0.999); if (i % 6 == 0) es = (T) r.pick(std::vector<double>{0.0818191908426, -0.0818191908426, 0.0, 0.5, -0.5, 0.99, -0.99});
+      T tau = std::ldexp((T) r.range(1, 2), r.irange(-60, 60)) * (r.coin() ? 1 : -1);
+      if (i % 34 == 0) tau = (T) r.pick(std::vector<double>{0.0, -0.0, INFINITY, -INFINITY, 70, -70, 71, -71, 1e8, -1e8, 2e8, -2e8, 1e9, -1e9});
+      stratum("taupf-" + tg); run("gtaupf", {tg, tok(tau), tok(es)});
+      // deterministic witness of finding F76 on Math::tauf (early exit on the low-order guess; repaired in b3c5a1d), double
+      if (i % 1000 == 0 && tg == "d") { stratum("taupf-d-extreme-eccentricity"); run("gtaupf", {tg, tok(T(270000)), tok(T(0.9999999))}); }
+    }
+    if (i % 20 == 0) {
+      int N = r.irange(-1, 8); Args pa = {tg, std::to_string(N), tok(i % 60 == 0 ? special_or<T>(r, T(1)) : std::ldexp((T) r.range(-2, 2), r.irange(-8, 8)))};
+      for (int k = 0; k <= std::max(N, 0); ++k) pa.push_back(tok(std::ldexp((T) r.range(-1, 1), r.irange(-10, 10))));
+      stratum("polyval-" + tg); run("gpoly", pa);
+      T a1 = std::ldexp((T) r.range(-1, 1), r.irange(-50, 50)), a2 = std::ldexp((T) r.range(-1, 1), r.irange(-50, 50)), a3 = std::ldexp((T) r.range(-1, 1), r.irange(-50, 50));
+      if (i % 40 == 0) { a1 = std::ldexp(a1, emax / 2 + 10); a2 = std::ldexp(a2, emax / 2 + 10); a3 = std::ldexp(a3, emax / 2 + 10); }
+      stratum("norm-hypot3-" + tg); run("gnorm", {tg, tok(a1), tok(a2), tok(a3)});
     }
   }
-  emit(hx(acc._s) + " " + hx(acc._t));
-});
+}
+
+// accumulator histories
+template<class T> static void gen_acc(Rng& r, long n) {
+  const std::string tg = P<T>::tag();
+  const int p = std::numeric_limits<T>::digits;
+  for (long i = 0; i < n; ++i) {
+    Args ops = {tg}; int len = r.irange(1, 30);
+    // regimes: 0 mixed magnitudes; 1 huge sum reduced by a small modulus (the low word matters after remainder); 2 cancellations;
+    // 3 tiny / subnormal addends
+    int regime = r.irange(0, 3);
+    auto val = [&]() -> T {
+      switch (regime) {
+      case 1: return r.coin() ? std::ldexp((T) r.range(-1, 1), r.irange(p - 6, p + 12)) * 360 : (T) r.range(-400, 400);
+      case 2: return (T) r.pick(std::vector<double>{1, -1, 3e-17, -3e-17, 1e16, -1e16, 0.1, -0.1, 360, -360}) * (r.coin() ? T(1) : (T) r.range(0.5, 2));
+      case 3: return std::ldexp((T) r.range(-1, 1), std::numeric_limits<T>::min_exponent - r.irange(-10, p));
+      default: return std::ldexp((T) r.range(-1, 1), r.irange(-30, 30));
+      }
+    };
+    for (int k = 0; k < len; ++k) {
+      int c = r.irange(0, 19);
+      if (c < 8) ops.push_back("a:" + tok(val()));
+      else if (c < 10) ops.push_back("d:" + tok(val()));
+      else if (c == 10) ops.push_back(r.coin() ? "s:" + tok(val()) : "S:" + tok(val()));
+      else if (c == 11) ops.push_back("n");
+      else if (c == 12) ops.push_back("i:" + std::to_string(r.pick(std::vector<int>{-1, 1, 2, -2, 4, -8, 1024})));   // documented: only ± powers of two
+      else if (c == 13) ops.push_back("m:" + tok((T) r.range(-3, 3)));
+      else if (c == 14) ops.push_back("c");
+      else if (c == 15) ops.push_back("q:" + tok(val()));
+      else if (c == 16) ops.push_back("k:" + tok(r.coin() ? T(0) : val()));
+      else ops.push_back("R:" + tok(r.coin() ? (T) r.pick(std::vector<double>{360.0, -360.0, 180.0, 1.0, 0.7, 7.0, 510065621724089.0, 1e-3}) : val()));
+    }
+    if (i % 41 == 0) ops.push_back("R:" + tok(special_or<T>(r, T(360))));
+    if (i % 43 == 0) ops.push_back("a:" + tok(special_or<T>(r, T(1))));
+    stratum("accumulator-" + tg + "-regime" + std::to_string(regime)); run("gacc", ops);
+  }
+}
 
 void gv::generate(const std::string& tier, uint64_t seed) {
   Rng r(seed * 1000003 + 16);
-  long n = tier == "thorough" ? 400000 : 20000;
+  bool thorough = tier == "thorough";
+  long n = thorough ? 100000 : 20000;
+  run("gconst", {});
+  // ---- double ops judged by the Lean binary64 model
   for (long i = 0; i < n; ++i) {
     double x = nasty_angle(r), y = nasty_angle(r);
     if (i % 97 == 0) x = r.coin() ? NAN : (r.coin() ? INFINITY : -INFINITY);
@@ -146,8 +631,8 @@ void gv::generate(const std::string& tier, uint64_t seed) {
     run("anground", {hx(x)});
     run("latfix", {hx(x)});
     run("sincosd", {hx(x)});
-    // pairs: related magnitudes to exercise cancellation
-    if (i % 3 == 0) y = x + r.pick(std::vector<double>{0, 180, -180, 360, -360, 1e-13, 90}) ;
+    run("trig1", {hx(i % 9 == 0 ? std::ldexp(r.range(-2, 2), r.irange(-70, 70)) : x)});
+    if (i % 3 == 0) y = x + r.pick(std::vector<double>{0, 180, -180, 360, -360, 1e-13, 90});
     if (i % 5 == 0) y = -x;
     run("angdiff", {hx(x), hx(y)});
     double u = std::ldexp(r.range(-2, 2), r.irange(-60, 60)), v = (i % 4 == 0) ? -u * (1 + r.irange(-3, 3) * 2.2e-16) : std::ldexp(r.range(-2, 2), r.irange(-60, 60));
@@ -157,27 +642,22 @@ void gv::generate(const std::string& tier, uint64_t seed) {
     double ay = (i % 7 == 0) ? r.pick(std::vector<double>{0.0, -0.0, 1, -1, 1e-300, INFINITY}) : std::ldexp(r.range(-1, 1), r.irange(-40, 40));
     double ax = (i % 11 == 0) ? r.pick(std::vector<double>{0.0, -0.0, 1, -1, ay, -ay}) : std::ldexp(r.range(-1, 1), r.irange(-40, 40));
     run("atan2d", {hx(ay), hx(ax)});
-    if (i % 2 == 0) {
-      double es = r.range(-0.999, 0.999); if (i % 6 == 0) es = r.pick(std::vector<double>{0.0818191908426, -0.0818191908426, 0.0, 0.5, -0.5, 0.99, -0.99});
-      double tau = std::ldexp(r.range(1, 2), r.irange(-60, 60)) * (r.coin() ? 1 : -1);
-      run("taupf", {hx(tau), hx(es)});
-    }
-    if (i % 10 == 0) {
-      Args ops; int len = r.irange(1, 30);
-      for (int k = 0; k < len; ++k) {
-        int c = r.irange(0, 13);
-        if (c == 10) ops.push_back("s:" + hx(std::ldexp(r.range(-1, 1), r.irange(-30, 30))));
-        else if (c == 11) ops.push_back("d:" + hx(std::ldexp(r.range(-1, 1), r.irange(-30, 30))));
-        else if (c == 12) ops.push_back(r.coin() ? "c" : "q:" + hx(std::ldexp(r.range(-1, 1), r.irange(-30, 30))));
-        else if (c == 13) ops.push_back("r:" + hx(r.pick(std::vector<double>{360.0, 180.0, 1.0, 0.7})));
-        else if (c < 7) ops.push_back("a:" + hx(std::ldexp(r.range(-1, 1), r.irange(-30, 30))));
-        else if (c == 7) ops.push_back("n");
-        else if (c == 8) ops.push_back("i:" + std::to_string(r.pick(std::vector<int>{-1, 1, 2, -2, 4, -8, 1024}))); // documented: only +/- powers of two
-        else ops.push_back("m:" + hx(r.range(-3, 3)));
-      }
-      run("accum", ops);
-    }
+    if (i % 256 == 0) { char b[24]; std::snprintf(b, sizeof b, "%016llx", (unsigned long long) r.next()); run("swab", {b}); }
     if (i < 3) sample(current_op());
+  }
+  // ---- every instantiation: exact relations in Lean at the instantiation's precision, libm-based ones against the wider type
+  long m = thorough ? 30000 : 6000;
+  gen_T<float>(r, m); gen_T<double>(r, m); gen_T<long double>(r, m);
+  gen_acc<double>(r, m / 3); gen_acc<float>(r, m / 3);
+  // ---- float: uniformly random bit patterns in the quick tier, all 2^32 in the thorough tier (16 processes x 2^28)
+  if (!thorough) {
+    for (long i = 0; i < 20000; ++i) { uint32_t b = (uint32_t) r.next(); float x; std::memcpy(&x, &b, 4); stratum("one-f-random-bits"); run("one", {"f", tok(x)}); }
+    uint64_t lo = (r.next() >> 32) & ~0xfffffULL; stratum("f32scan-window"); run("f32scan", {std::to_string(lo), std::to_string(lo + (1u << 20))});
+  } else {
+    uint64_t k = seed % 100;
+    if (k < 16) for (uint64_t c = 0; c < 256; ++c) {
+      uint64_t lo = (k << 28) + (c << 20); stratum("f32scan-exhaustive"); run("f32scan", {std::to_string(lo), std::to_string(lo + (1u << 20))});
+    }
   }
 }
 int main(int argc, char** argv) { return gv::main_(argc, argv); }
